@@ -139,7 +139,7 @@ def plan(tier, seed):
         for key, text, h, m, pod, hh in pods:
             yield ("off", key, text, h, m, TS)
         for (h, m) in lat_times:
-            for key, text in clock_forms(h, m)[:1] + [f for f in clock_forms(h, m) if f[0] == "h:mm am"]:
+            for key, text in clock_forms(h, m)[:1] + [f for f in clock_forms(h, m) if f[0] in ("h:mm am", "H o'clock", "H uhr", "Hh", "h am")]:
                 for d in days:
                     base = datetime.fromisoformat(d).replace(hour=h, minute=m)
                     for delta, sec in ((-1, 59), (0, 0), (0, 30), (1, 0)):
